@@ -515,6 +515,105 @@ fn real_limit_family(rep: &mut Report, n: usize) {
     rep.out.merge(out);
 }
 
+/// Wide-transaction family: one transaction pays `n` outputs to one address (vout beyond
+/// one byte); the pager uses page size `limit`; after page `stabilise_after` the block is
+/// buried and ingested, so the remaining pages are served from the stable index.
+fn wide_tx_family(rep: &mut Report, n: usize, limit: usize) {
+    let mut out = Out::default();
+    let pages_total = n.div_ceil(limit);
+    for stabilise_after in 0..=pages_total {
+        // theta = 3 and two blocks on top of the wide block: the pager's tip (c2) stays in
+        // the tree (as the anchor) when the wide block is ingested later
+        let mut w = World::new(WorldCfg::regtest(3));
+        let g = w.refm.genesis;
+        let outs: Vec<(u64, bitcoin::ScriptBuf)> = (0..n).map(|i| (1000 + i as u64, w.book.script(factory::A))).collect();
+        let b1 = w.extend(&g, vec![factory::coinbase_tx(1, outs)], 1);
+        let c1 = w.extend(&b1, vec![factory::coinbase_tx(2, vec![(5, w.book.script(factory::B))])], 1);
+        let c2 = w.extend(&c1, vec![factory::coinbase_tx(3, vec![(5, w.book.script(factory::B))])], 1);
+        let text = w.book.text(factory::A).to_string();
+        out.set_history(json!({"family": "wide transaction", "outputs": n, "page_size": limit, "stabilised_after_page": stabilise_after}));
+        let mut collected: Vec<Utxo> = vec![];
+        let mut next: Option<Vec<u8>> = None;
+        let mut first_tip: Option<Vec<u8>> = None;
+        let mut page = 0usize;
+        let mut tip = c2;
+        loop {
+            if page == stabilise_after {
+                // bury further and ingest: the wide block moves from the unstable bookkeeping
+                // to the stable index
+                for k in 0..2u64 {
+                    tip = w.extend(&tip, vec![factory::coinbase_tx(50 + k, vec![(5, w.book.script(factory::B))])], 1);
+                }
+                let _ = w.ingest(None);
+                if w.stable_height() < 2 {
+                    out.violation("machinery:wide-family-setup", None, json!({"stable_height": w.stable_height()}));
+                }
+            }
+            let filter = next.clone().map(|p| UtxosFilterInRequest::Page(ByteBuf::from(p)));
+            let first_tip_in_tree = first_tip.as_ref().map(|t| w.tree_hashes().iter().any(|h| h.to_vec() == *t)).unwrap_or(true);
+            match w.utxos_req(&text, filter, Some(limit)) {
+                Ok(Ok(r)) => {
+                    if first_tip.is_none() {
+                        first_tip = Some(r.tip_block_hash.clone());
+                    }
+                    collected.extend(r.utxos.iter().cloned());
+                    next = r.next_page.map(|p| p.to_vec());
+                    page += 1;
+                    out.states += 1;
+                    if next.is_none() {
+                        break;
+                    }
+                }
+                Ok(Err(e)) => {
+                    if first_tip_in_tree {
+                        out.violation("follow-up-refused", None, json!({"error": format!("{:?}", e), "page": page}));
+                    } else {
+                        out.count("wide_runs_ending_in_the_explicit_error");
+                    }
+                    collected.clear();
+                    break;
+                }
+                Err(p) => {
+                    out.violation("trap-on-follow-up", None, json!({"panic": p, "page": page}));
+                    collected.clear();
+                    break;
+                }
+            }
+        }
+        if let Some(ft) = first_tip {
+            let ft: H32 = ft.try_into().unwrap();
+            if !collected.is_empty() {
+                if let Ok((exp, _)) = expected_at(&w, &ft, factory::A) {
+                    let d = diff_utxos(&exp, &collected);
+                    if !d.is_clean() {
+                        // signature of finding F10: only elements of the wide transaction,
+                        // each missing element has vout >= 256 or is shadowed by one
+                        let f10 = d.wrong_height.is_empty()
+                            && d.wrong_value.is_empty()
+                            && d.surplus.is_empty()
+                            && d.duplicates == 0
+                            && stabilise_after > 0
+                            && stabilise_after < pages_total
+                            && !d.missing.is_empty()
+                            && d.missing.iter().all(|m| m.0 .1 >= 256);
+                        out.violation(
+                            "snapshot-content",
+                            if f10 { Some("F10") } else { None },
+                            json!({"outputs": n, "page_size": limit, "stabilised_after_page": stabilise_after,
+                                   "missing": d.missing.len(), "duplicates": d.duplicates, "surplus": d.surplus.len(),
+                                   "first_missing_vout": d.missing.first().map(|m| m.0 .1)}),
+                        );
+                    } else {
+                        out.count("wide_transaction_runs_completed");
+                    }
+                }
+            }
+        }
+        out.leaves += 1;
+    }
+    rep.out.merge(out);
+}
+
 pub fn run(tier: &str) -> i32 {
     let mut rep = Report::new("C06", tier, "model_checking");
     let quick = tier == "quick";
@@ -552,7 +651,11 @@ pub fn run(tier: &str) -> i32 {
     for n in &sizes {
         real_limit_family(&mut rep, *n);
     }
-    rep.parts.push(json!({"part": "page blobs (lengths 0..80, tip x height x outpoint product) and real-limit family", "real_limit_outputs": sizes}));
+    let wide: Vec<(usize, usize)> = if quick { vec![(300, 100), (200, 64)] } else { vec![(300, 100), (200, 64), (600, 256), (258, 1), (1300, 1000)] };
+    for (n, l) in &wide {
+        wide_tx_family(&mut rep, *n, *l);
+    }
+    rep.parts.push(json!({"part": "page blobs (lengths 0..80, tip x height x outpoint product), real-limit family, wide-transaction family (one transaction with up to 1300 outputs to one address, block stabilised between pages)", "real_limit_outputs": sizes, "wide": wide}));
     rep.rule = "from every LEDGER state a pager issues a first request (no filter, min_confirmations 1 and 2) for every address with more UTXOs than the page size (1 or 2 through the hook) and follows next_page; between two page requests the environment may take any event of the chain alphabet (block on any live block with difficulty 1 or 3: tip growth, competing fork, fork that makes the pager's chain lose; unsliced or 1-step ingestion; upgrade), all placements of <= k such events; plus arbitrary page blobs and the real 1000 limit".into();
     rep.bounds = json!({"tier": tier});
     rep.assume("page size 1/2 through the cfg-guarded hook; the constant 1000 is exercised by the real-limit family");
